@@ -41,6 +41,7 @@ inductive Sub1 where
 /-- Expressions as written in the source. A reference is a dotted list of (name, subscripts). -/
 inductive Expr where
   | num (n : Nat)
+  | real (s : String)        -- a real literal, kept as its decimal text ("0.0", "2.5")
   | bool (b : Bool)
   | str (s : String)
   | ref (parts : List (Name × List Sub1))
@@ -68,6 +69,7 @@ inductive FSub1 where
     `sym` is the variable on the left of a binding equation. -/
 inductive FExpr where
   | num (n : Nat)
+  | real (s : String)
   | bool (b : Bool)
   | str (s : String)
   | fref (path : Path) (subs : List FSub1)
@@ -167,6 +169,7 @@ def dupName : List Name → Option Name
 
 def Expr.isLiteral : Expr → Bool
   | .num _ => true
+  | .real _ => true
   | .bool _ => true
   | .str _ => true
   | .ref _ => false
@@ -385,6 +388,7 @@ def refSubs (vars : List Path) (P : Path) (parts : List (Name × List Sub1)) : L
 
 def rename (vars : List Path) (P : Path) : Expr → FExpr
   | .num n => .num n
+  | .real s => .real s
   | .bool b => .bool b
   | .str s => .str s
   | .ref parts =>
